@@ -9,6 +9,7 @@ the reference fold (Lang.steps) and the first answer given for that type.
 from __future__ import annotations
 
 import copy
+import os
 import json
 
 from .engine import Violation, SetupRejected, Unresolvable
@@ -172,6 +173,30 @@ class World(BaseWorld):
             setattr(self, k, v)
         self.cur = u
 
+    def _mal_ok(self):
+        """The language printed as MAL text in <dir of this language>/lang.mal - used only if
+        a fresh compiler gives the specification back (C04 is decided elsewhere)."""
+        key = '_mal_state_%d' % self.cur
+        st = getattr(self, key, None)
+        if st is None:
+            import contextlib
+            import io
+            from . import malprint
+            from .world_s import _norm_top
+            from maltoolbox.language.compiler import MalCompiler
+            d = self.path('src_lang%d' % self.cur)
+            os.makedirs(d, exist_ok=True)
+            path = os.path.join(d, 'lang.mal')
+            spec = json.loads(self.S0)
+            with open(path, 'w', encoding='utf-8') as f:
+                f.write(malprint.single_file(spec))
+            with contextlib.redirect_stderr(io.StringIO()):
+                o = call(MalCompiler().compile, path)
+            st = (not o.raised and _norm_top(o.value) == _norm_top(spec), path)
+            setattr(self, key, st)
+        self._mal_path = st[1]
+        return st[0]
+
     def _has_shape(self):
         n = 0
         for t in self.L.order:
@@ -265,7 +290,7 @@ class World(BaseWorld):
         if kind == 'new_lg':
             # from the dict in memory, or from a .mar archive at a path that every language
             # of this process is written to in turn (same path, other content)
-            return {'op': kind, 'lg': lg, 'via': rng.choice(['spec', 'spec', 'mar'])}
+            return {'op': kind, 'lg': lg, 'via': rng.choice(['spec', 'spec', 'mar', 'mal'])}
         return {'op': kind, 'lg': lg}
 
     def _factory(self, i):
@@ -385,6 +410,16 @@ class World(BaseWorld):
             self.count('probe:language_loaded_from_archive_path_used_before'
                        if getattr(self, '_mar_written', False) else 'probe:language_loaded_from_archive')
             self._mar_written = True
+        elif kind == 'new_lg' and op.get('via') == 'mal' and self._mal_ok():
+            # every language of the process keeps its source under the same file name, each
+            # in a directory of its own
+            o = call(self.LanguageGraph.from_mal_spec, self._mal_path)
+            if o.raised:
+                raise Violation('C03.stable', f'from_mal_spec raised {o.exc!r} on a source that '
+                                              f'compiled before')
+            o.value._verif_from_source = True
+            self.lgs.append(o.value)
+            self.count('probe:language_loaded_from_mal_source')
         elif kind == 'new_lg':
             o = call(self.LanguageGraph, self.spec)
             if o.raised:
@@ -419,7 +454,12 @@ class World(BaseWorld):
                 with open(p) as f:
                     saved = json.load(f)
                 self.count('oracle:C03.spec_unchanged')
-                if canon(saved) != self.S0:
+                same = canon(saved) == self.S0
+                if not same and getattr(lg, '_verif_from_source', False):
+                    # compiled from text: the order of the top-level lists follows the text
+                    from .world_s import _norm_top
+                    same = _norm_top(saved) == _norm_top(json.loads(self.S0))
+                if not same:
                     raise Violation('C03.spec_unchanged',
                                     'saved language specification differs from the one loaded\n'
                                     + _diff(json.loads(self.S0), saved))
